@@ -14,21 +14,22 @@ EXTENDS Perdictable, Json
 CONSTANTS Sizes     \* set of <<n, K, nk, cache, values>>: inputs, keys, key columns, enumerate cached values /
                     \* expiries ("yes"/"no"; "scalar": one expiry value for all rows), values: "distinct" | "same" (every cell, scalar and default is the same
                     \* value: calls collide, bag counts matter) | "pairs" (the previously computed values are 2-tuples)
+                    \* | "seq0".."seq3" (the scalar inputs are lists / tuples of that length)
                     \* cache = "beyond" additionally gives past expiries to keys that were NOT computed before -
                     \* outside the quantifier ("expiry to previously computed keys"); configuration `beyond`
                     \* documents that there the code's gating leaves such rows uncomputed (ComputedRows fails).
 
 \* the size sets of the configuration files (a .cfg cannot write tuples): <<n, K, nk, cache, values>>
-SZ_quick == {<<1, 3, 1, "yes", "distinct">>, <<2, 2, 1, "yes", "distinct">>, <<2, 3, 1, "no", "distinct">>, <<3, 3, 1, "no", "distinct">>, <<1, 3, 2, "yes", "distinct">>, <<2, 2, 2, "yes", "distinct">>, <<2, 3, 2, "no", "distinct">>, <<1, 3, 1, "yes", "same">>, <<2, 2, 1, "yes", "same">>, <<1, 3, 1, "yes", "pairs">>, <<1, 3, 1, "scalar", "distinct">>, <<2, 2, 2, "scalar", "distinct">>}
+SZ_quick == {<<1, 3, 1, "yes", "distinct">>, <<2, 2, 1, "yes", "distinct">>, <<2, 3, 1, "no", "distinct">>, <<3, 3, 1, "no", "distinct">>, <<1, 3, 2, "yes", "distinct">>, <<2, 2, 2, "yes", "distinct">>, <<2, 3, 2, "no", "distinct">>, <<1, 3, 1, "yes", "same">>, <<2, 2, 1, "yes", "same">>, <<1, 3, 1, "yes", "pairs">>, <<1, 3, 1, "scalar", "distinct">>, <<2, 2, 2, "scalar", "distinct">>, <<1, 2, 1, "no", "seq0">>, <<1, 2, 1, "no", "seq2">>, <<2, 2, 1, "no", "seq0">>, <<2, 2, 1, "no", "seq1">>, <<2, 3, 1, "no", "seq2">>, <<2, 3, 1, "no", "seq3">>, <<2, 2, 2, "no", "seq2">>}
 SZ_thorough == {<<1, 3, 1, "yes", "distinct">>, <<2, 3, 1, "yes", "distinct">>, <<3, 2, 1, "yes", "distinct">>, <<3, 3, 1, "no", "distinct">>, <<4, 3, 1, "no", "distinct">>}
-SZ_thorough2 == {<<1, 3, 2, "yes", "distinct">>, <<2, 3, 2, "yes", "distinct">>, <<3, 2, 2, "yes", "distinct">>, <<3, 3, 2, "no", "distinct">>, <<1, 3, 1, "yes", "same">>, <<2, 3, 1, "yes", "same">>, <<3, 2, 1, "yes", "same">>, <<1, 3, 1, "yes", "pairs">>, <<2, 3, 2, "yes", "pairs">>, <<1, 3, 1, "scalar", "distinct">>, <<2, 3, 2, "scalar", "distinct">>, <<3, 2, 1, "scalar", "distinct">>}
+SZ_thorough2 == {<<1, 3, 2, "yes", "distinct">>, <<2, 3, 2, "yes", "distinct">>, <<3, 2, 2, "yes", "distinct">>, <<3, 3, 2, "no", "distinct">>, <<1, 3, 1, "yes", "same">>, <<2, 3, 1, "yes", "same">>, <<3, 2, 1, "yes", "same">>, <<1, 3, 1, "yes", "pairs">>, <<2, 3, 2, "yes", "pairs">>, <<1, 3, 1, "scalar", "distinct">>, <<2, 3, 2, "scalar", "distinct">>, <<3, 2, 1, "scalar", "distinct">>, <<1, 3, 1, "no", "seq0">>, <<1, 3, 1, "no", "seq1">>, <<1, 3, 1, "no", "seq2">>, <<1, 3, 1, "no", "seq3">>, <<1, 3, 2, "no", "seq0">>, <<1, 3, 2, "no", "seq1">>, <<1, 3, 2, "no", "seq2">>, <<1, 3, 2, "no", "seq3">>, <<2, 3, 1, "no", "seq0">>, <<2, 3, 1, "no", "seq1">>, <<2, 3, 1, "no", "seq2">>, <<2, 3, 1, "no", "seq3">>, <<2, 3, 2, "no", "seq0">>, <<2, 3, 2, "no", "seq1">>, <<2, 3, 2, "no", "seq2">>, <<2, 3, 2, "no", "seq3">>, <<3, 3, 1, "no", "seq0">>, <<3, 3, 1, "no", "seq1">>, <<3, 3, 1, "no", "seq2">>, <<3, 3, 1, "no", "seq3">>}
 SZ_beyond == {<<1, 2, 1, "beyond", "distinct">>}
-SZ_gen_quick == {<<1, 3, 1, "yes", "distinct">>, <<2, 2, 1, "yes", "distinct">>, <<2, 3, 1, "no", "distinct">>, <<3, 3, 1, "no", "distinct">>, <<1, 3, 2, "yes", "distinct">>, <<2, 2, 2, "yes", "distinct">>, <<2, 3, 2, "no", "distinct">>, <<2, 2, 1, "yes", "same">>, <<1, 3, 1, "yes", "pairs">>, <<1, 3, 1, "scalar", "distinct">>, <<2, 2, 2, "scalar", "distinct">>}
+SZ_gen_quick == {<<1, 3, 1, "yes", "distinct">>, <<2, 2, 1, "yes", "distinct">>, <<2, 3, 1, "no", "distinct">>, <<3, 3, 1, "no", "distinct">>, <<1, 3, 2, "yes", "distinct">>, <<2, 2, 2, "yes", "distinct">>, <<2, 3, 2, "no", "distinct">>, <<2, 2, 1, "yes", "same">>, <<1, 3, 1, "yes", "pairs">>, <<1, 3, 1, "scalar", "distinct">>, <<2, 2, 2, "scalar", "distinct">>, <<1, 2, 1, "no", "seq0">>, <<1, 2, 1, "no", "seq2">>, <<2, 2, 1, "no", "seq0">>, <<2, 2, 1, "no", "seq1">>, <<2, 3, 1, "no", "seq2">>, <<2, 3, 1, "no", "seq3">>, <<2, 2, 2, "no", "seq2">>}
 SZ_gen_join == {<<1, 3, 1, "no", "distinct">>, <<2, 3, 1, "no", "distinct">>, <<3, 3, 1, "no", "distinct">>, <<1, 3, 2, "no", "distinct">>, <<2, 3, 2, "no", "distinct">>, <<3, 3, 2, "no", "distinct">>}
 SZ_gen_join4 == {<<4, 3, 1, "no", "distinct">>}
 SZ_gen_cache == {<<1, 3, 1, "yes", "distinct">>, <<2, 3, 1, "yes", "distinct">>, <<3, 2, 1, "yes", "distinct">>}
 SZ_gen_cache2 == {<<1, 3, 2, "yes", "distinct">>, <<2, 3, 2, "yes", "distinct">>, <<3, 2, 2, "yes", "distinct">>}
-SZ_gen_values == {<<1, 3, 1, "yes", "same">>, <<2, 3, 1, "yes", "same">>, <<3, 2, 2, "yes", "same">>, <<1, 3, 1, "yes", "pairs">>, <<2, 2, 1, "yes", "pairs">>, <<2, 2, 2, "yes", "pairs">>, <<1, 3, 1, "scalar", "distinct">>, <<2, 3, 2, "scalar", "distinct">>, <<3, 2, 1, "scalar", "distinct">>}
+SZ_gen_values == {<<1, 3, 1, "yes", "same">>, <<2, 3, 1, "yes", "same">>, <<3, 2, 2, "yes", "same">>, <<1, 3, 1, "yes", "pairs">>, <<2, 2, 1, "yes", "pairs">>, <<2, 2, 2, "yes", "pairs">>, <<1, 3, 1, "scalar", "distinct">>, <<2, 3, 2, "scalar", "distinct">>, <<3, 2, 1, "scalar", "distinct">>, <<1, 3, 1, "no", "seq0">>, <<1, 3, 1, "no", "seq1">>, <<1, 3, 1, "no", "seq2">>, <<1, 3, 1, "no", "seq3">>, <<1, 3, 2, "no", "seq0">>, <<1, 3, 2, "no", "seq1">>, <<1, 3, 2, "no", "seq2">>, <<1, 3, 2, "no", "seq3">>, <<2, 3, 1, "no", "seq0">>, <<2, 3, 1, "no", "seq1">>, <<2, 3, 1, "no", "seq2">>, <<2, 3, 1, "no", "seq3">>, <<2, 3, 2, "no", "seq0">>, <<2, 3, 2, "no", "seq1">>, <<2, 3, 2, "no", "seq2">>, <<2, 3, 2, "no", "seq3">>, <<3, 3, 1, "no", "seq0">>, <<3, 3, 1, "no", "seq1">>, <<3, 3, 1, "no", "seq2">>, <<3, 3, 1, "no", "seq3">>}
 
 VARIABLES size, shape, dflt, cache, sexp, C, todo, out, calls, ncall, phase
 vars == <<size, shape, dflt, cache, sexp, C, todo, out, calls, ncall, phase>>
@@ -44,7 +45,12 @@ FutureD == <<"d", <<1094998, 0, 0>>>>                 \* 2999-01-01
 
 KeyNo(k)    == IF Len(k) = 1 THEN k[1] ELSE 10 * k[1] + k[2]
 Cell(i, k)  == IF Same THEN VInt(7) ELSE VInt(100 * i + KeyNo(k))
-Scal(i)     == IF Same THEN VInt(7) ELSE IF i = 2 THEN None ELSE VInt(1000 + i)
+\* values "seq0" .. "seq3": every scalar input is itself a sequence (a list; a tuple for input 2) of that many numbers -
+\* a scalar is whatever is not a table, and it is handed to f as it is for every row, also when it happens to be
+\* as long as the table
+SeqLen      == CASE size[5] = "seq0" -> 0 [] size[5] = "seq1" -> 1 [] size[5] = "seq2" -> 2 [] size[5] = "seq3" -> 3 [] OTHER -> 0 - 1
+SeqScal(i)  == LET xs == [n \in 1..SeqLen |-> VInt(1000 * n + i)] IN IF i = 2 THEN VTup(xs) ELSE VLst(xs)
+Scal(i)     == IF Same THEN VInt(7) ELSE IF SeqLen >= 0 THEN SeqScal(i) ELSE IF i = 2 THEN None ELSE VInt(1000 + i)
 Dflt(i)     == IF Same THEN VInt(7) ELSE IF i = 1 THEN None ELSE VInt(0 - i)
 Old(k)      == IF size[5] = "pairs" THEN VTup(<<VStr("old"), VInt(KeyNo(k))>>)     \* previously computed values that are pairs
                ELSE VStr("old" \o ToString(KeyNo(k)))
